@@ -339,12 +339,12 @@ func runC07(c *bx.Ctx) {
 		c.T(1)
 		if pan != "" || err != nil || len(ps) != 1 {
 			if shapeClass(v.P) == "" {
-				c.Report(keyJoin("C07/own-output/rejected", v.Type), "a type's Marshal output is not accepted by rtcp.Unmarshal", bx.Replay{Entry: "Marshal+dgram", Value: valueString(v), Expected: v.Type, Observed: fmt.Sprint(len(ps), err, pan)})
+				c.Report(keyJoin("C07/own-output/rejected", v.Type), "a type's Marshal output is not accepted by rtcp.Unmarshal", bx.Replay{Entry: "Marshal+dgram", Value: valueString(v), ValueGob: valueGob(v), Expected: v.Type, Observed: fmt.Sprint(len(ps), err, pan)})
 			}
 			return true
 		}
 		if TypeName(ps[0]) != v.Type {
-			c.Report(keyJoin("C07/own-output/wrong-type", v.Type, TypeName(ps[0])), "a type's Marshal output is dispatched to a different Go type", bx.Replay{Entry: "Marshal+dgram", Value: valueString(v), Expected: v.Type, Observed: TypeName(ps[0])})
+			c.Report(keyJoin("C07/own-output/wrong-type", v.Type, TypeName(ps[0])), "a type's Marshal output is dispatched to a different Go type", bx.Replay{Entry: "Marshal+dgram", Value: valueString(v), ValueGob: valueGob(v), Expected: v.Type, Observed: TypeName(ps[0])})
 			return true
 		}
 		c.NT()
